@@ -421,7 +421,7 @@ func genC11All(r *rand.Rand, tier string) []Case {
 		out = append(out, &c11Any{R: rc})
 	}
 	for i := 0; i < 2*nc; i++ {
-		out = append(out, &c11Any{X: &c11Damaged{NTables: 2 + r.Intn(3), Victim: r.Intn(4)}})
+		out = append(out, &c11Any{X: &c11Damaged{NTables: 3 + r.Intn(2), Victim: i % 3}}) // oldest, middle, a later input
 	}
 	for i := 0; i < nc; i++ {
 		out = append(out, &c11Any{X: &c11Damaged{NTables: 2 + r.Intn(2), Victim: r.Intn(4), IdxHole: true}})
@@ -432,6 +432,8 @@ func genC11All(r *rand.Rand, tier string) []Case {
 			continue
 		}
 		out = append(out, &c11Any{B: &c11BgFlush{NPuts: 12 + r.Intn(20), ValLen: 100 + r.Intn(400), File: f}})
+		// the same failure in the flush that Close hands over (the memstore never fills up before)
+		out = append(out, &c11Any{B: &c11BgFlush{NPuts: 3 + r.Intn(5), ValLen: 50 + r.Intn(100), File: f, AtClose: true}})
 	}
 	return out
 }
